@@ -38,6 +38,9 @@ type Conn struct {
 	FlushErr        error
 	HeaderAfterBody bool // a final header arrived after body bytes
 	WroteBody       bool
+	// OnWrite, when set, is called when a body write arrives, before its bytes are consumed (a simulator yield here lets
+	// other requests run while the caller's buffer is in flight).
+	OnWrite func()
 }
 
 func NewConn() *Conn { return &Conn{H: http.Header{}, FailAfter: -1} }
@@ -63,6 +66,9 @@ func (c *Conn) WriteHeader(code int) {
 }
 
 func (c *Conn) accept(p []byte, kind string) (int, error) {
+	if c.OnWrite != nil {
+		c.OnWrite()
+	}
 	if c.Status == 0 {
 		// net/http semantics: implicit 200 on first write
 		c.Status = 200
